@@ -144,7 +144,15 @@ def jMVal : MVal → Json
 def opMetrics (j : Json) : R Json := do
   let g ← dsg (← field j "g")
   let ms ← listOf metric (← field j "metrics")
-  let perm := closure g []
+  let modelPerm := closure g []
+  -- the permanent-node set is an oracle read from the implementation (validated below), default: model
+  let perm ← fieldD j "perm" (listOf nat) modelPerm
+  let archs := ((allAssigns g).filter (admissible g)).map (closure g)
+  let permOk := archs.all (fun X => perm.all (X.contains ·))
+  let lower := modelPerm.all (perm.contains ·)
+  -- metrics the implementation dropped from the initial graph must exist in no architecture
+  let dropped ← fieldD j "dropped" (listOf nat) []
+  let droppedOk := dropped.all (fun v => archs.all (fun X => !X.contains v))
   let roles := (sortMetrics ms).map (fun m => Json.mkObj [("name", jNat m.name), ("role", jRole (roleOf perm m))])
   let evals ← listOf (fun e => do
       let arch ← listOf nat (← field e "arch")
@@ -154,7 +162,9 @@ def opMetrics (j : Json) : R Json := do
       | some (objs, cons) =>
         let (o, c) := evaluate arch objs cons vals
         return Json.mkObj [("obj", jList jMVal o), ("con", jList jMVal c)]) (← fieldD j "evals" pure (Json.arr #[]))
-  return Json.mkObj [("perm", jList jNat (sortNat perm)), ("roles", Json.arr roles.toArray),
+  return Json.mkObj [("model_perm", jList jNat (sortNat modelPerm)), ("perm_in_every_arch", Json.bool permOk),
+    ("perm_contains_confirmed", Json.bool lower), ("dropped_never_exist", Json.bool droppedOk), ("n_archs", jNat archs.length),
+    ("roles", Json.arr roles.toArray),
     ("ok", Json.bool (classify perm ms).isSome), ("evals", Json.arr evals.toArray)]
 
 def dispatch (op : String) (j : Json) : R Json :=
